@@ -168,6 +168,25 @@ def run(ctx):
     it.reset([])
     dicts = it.call_function(lt, [st["survey"]], {}, None, lt.node)
     r2.check(dicts == [{"type": "text"}], "md_to_dict:strips cells, drops empty cells", "cell text is stripped and empty cells are omitted", mt.loc(), why_fail=repr(dicts))
+    # a row with more cells than the header row: the cells without a header are dropped, as the Excel readers do
+    it.reset([])
+    try:
+        dicts = it.call_function(lt, [[("type", "name"), ("text", "q", "stray", "")]], {}, None, lt.node)
+    except Raised as e:
+        dicts = f"raises {e.exc_name}"
+    r2.check(dicts == [{"type": "text", "name": "q"}], "md_to_dict:row longer than the header", "cells beyond the header row are dropped (no exception)", lt.loc(), why_fail=repr(dicts))
+    # a sheet without any row (only its name) before another sheet
+    pm = repo.func("pyxform.xls2json_backends:md_to_dict.process_md_data")
+    it.reset([])
+    it.hooks["fnname:_md_table_to_ss_structure"] = lambda i, a, k, n: {"survey": [], "choices": [("list_name", "name"), ("l", "a")]}
+    try:
+        res = it.call_function(pm, [], {"md_": "ignored"}, {"list_to_dicts": FuncVal(lt)}, pm.node)
+        ok_empty = res.get("survey") == [] and res.get("survey_header") == [] and res.get("choices") == [{"list_name": "l", "name": "a"}]
+    except Raised as e:
+        ok_empty, res = False, f"raises {e.exc_name}"
+    finally:
+        it.hooks.pop("fnname:_md_table_to_ss_structure", None)
+    r2.check(ok_empty, "md_to_dict:sheet without rows", "a sheet that has a name but no rows reads as an empty sheet (no exception)", pm.loc(), why_fail=repr(res)[:200])
     # typed-cell normalisers
     xv = ctx.func("pyxform.xls2json_backends:xls_value_to_unicode", "C12.R2")
     xs = ctx.func("pyxform.xls2json_backends:xlsx_value_to_str", "C12.R2")
@@ -209,6 +228,12 @@ def run(ctx):
     it.reset([])
     out = it.call_function(gh, [], {"first_row": [" my   header ", "x"]}, None, gh.node)
     r3.check(out == ["my header", "x"], "headers[cleaning]", "header text is stripped and inner runs of spaces collapsed", gh.loc(), why_fail=repr(out))
+    it.reset([])
+    try:
+        out = it.call_function(gh, [], {"first_row": ["type", 2024, 3.5, True]}, None, gh.node)
+    except Raised as e:
+        out = f"raises {e.exc_name}"
+    r3.check(out == ["type", "2024", "3.5", "True"], "headers[typed cells]", "a numeric / boolean header cell is read as its text (a text container has nothing else)", gh.loc(), why_fail=repr(out))
     it.reset([])
     try:
         it.call_function(gh, [], {"first_row": ["a", "b", "a"]}, None, gh.node)
